@@ -182,7 +182,7 @@ pub fn check_graph(item: u64, g: &GraphSpec, desc: &str, sig: &[Vec<isize>], acc
 
 pub fn run(ctx: &Ctx) -> i32 {
     let emax = if ctx.quick() { 7 } else { 11 };
-    let n_items = ctx.n(2500, 60000);
+    let n_items = ctx.n(8000, 60000);
     let acc = par_items(ctx, "C03", n_items, |item, rng, acc| {
         for _ in 0..8 {
             let (g, desc) = gen::any_graph(rng, emax);
